@@ -101,6 +101,8 @@ fn closed_form_lm(p: &BTreeMap<String, String>, red: (f64, f64), lm: bool) -> Ex
         "joule" => 0.0,
         "hp25" => dsum * (1.0 - 1.0 / 2.5),
         "hp4" => dsum * 0.75,
+        // ambient heat of a heat pump tagged as low SCOP is excluded (documented tag)
+        "hp25_excluded" => 0.0,
         "solar25+gas" => 0.25 * dsum,
         "solar50+gas" => 0.5 * dsum,
         "solar75+gas" => 0.75 * dsum,
@@ -120,7 +122,7 @@ fn closed_form_lm(p: &BTreeMap<String, String>, red: (f64, f64), lm: bool) -> Ex
     // electric part: PV allocated to the non-auxiliary DHW electricity, per step
     let e_acs: Vec<f64> = match mix {
         "joule" => d.clone(),
-        "hp25" => d.iter().map(|x| x / 2.5).collect(),
+        "hp25" | "hp25_excluded" => d.iter().map(|x| x / 2.5).collect(),
         "hp4" => d.iter().map(|x| x / 4.0).collect(),
         "red2_50+hp4_50" => d.iter().map(|x| x / 8.0).collect(),
         _ => vec![0.0; n],
@@ -323,6 +325,7 @@ fn slots(d: &[f64], demand_kind: &'static str) -> Vec<Vec<Letter>> {
         m("joule", vec![u(Some(1), "ACS", "ELECTRICIDAD", &cv(d))]),
         m("hp25", vec![u(Some(1), "ACS", "ELECTRICIDAD", &cv(&sc(0.4))), u(Some(1), "ACS", "EAMBIENTE", &cv(&sc(0.6)))]),
         m("hp4", vec![u(Some(1), "ACS", "ELECTRICIDAD", &cv(&sc(0.25))), u(Some(1), "ACS", "EAMBIENTE", &cv(&sc(0.75)))]),
+        m("hp25_excluded", vec![u(Some(1), "ACS", "ELECTRICIDAD", &cv(&sc(0.4))), com(u(Some(1), "ACS", "EAMBIENTE", &cv(&sc(0.6))), "BdC CTEEPBD_EXCLUYE_SCOP_ACS")]),
         m("solar25+gas", vec![u(Some(1), "ACS", "TERMOSOLAR", &cv(&sc(0.25))), u(Some(2), "ACS", "GASNATURAL", &cv(&sc(0.75)))]),
         m("solar50+gas", vec![u(Some(1), "ACS", "TERMOSOLAR", &cv(&sc(0.5))), u(Some(2), "ACS", "GASNATURAL", &cv(&sc(0.5)))]),
         m("solar75+gas", vec![u(Some(1), "ACS", "TERMOSOLAR", &cv(&sc(0.75))), u(Some(2), "ACS", "GASNATURAL", &cv(&sc(0.25)))]),
